@@ -95,9 +95,12 @@ Definition site_airdrop_init (self : addr) (funds : list coin) : result (list bm
 (* ---- mint-fee distribution in the minters: exact payment of the price in the price's
    denom, fee = floor(price * bps / 10^4), nothing emitted for a zero fee.
    vending family: no developer, featured as the variant says;
-   open-edition family: the factory's dev_fee_address is the developer, never featured;
+   open-edition family: the factory's dev_fee_address AS CONFIGURED is the developer, never
+   featured; the string goes through addr_validate when (and only when) there is a fee to
+   distribute, and a string the chain's address rules refuse aborts the mint -- `valid` is
+   that answer (an oracle input: the harness asks the chain's own addr_validate);
    token-merge (airdrop mints only): no developer, not featured. *)
-Inductive msite := MsVending (featured : bool) | MsOpen (dev : addr) | MsTokenMerge.
+Inductive msite := MsVending (featured : bool) | MsOpen (dev : addr) (valid : bool) | MsTokenMerge.
 
 Definition site_mint_fee (k : msite) (d : denom) (price bps : N) (funds : list coin) : result (list bmsg) :=
   do p <- may_pay funds d;
@@ -107,7 +110,7 @@ Definition site_mint_fee (k : msite) (d : denom) (price bps : N) (funds : list c
     if fee =? 0 then Ok []
     else match k with
          | MsVending ft => distribute_mint_fees d fee ft None
-         | MsOpen dev => distribute_mint_fees d fee false (Some dev)
+         | MsOpen dev valid => if valid then distribute_mint_fees d fee false (Some dev) else Err
          | MsTokenMerge => distribute_mint_fees d fee false None
          end.
 
